@@ -114,7 +114,8 @@ def ratPrims : Prims Rat where
 
 def readCfg (s : String) : Option Cfg :=
   match s.toList with
-  | [a, b, c, d] => some ⟨a == 'T', b == 'T', c == 'T', d == 'T'⟩
+  | [a, b, c, d, e] => some ⟨a == 'T', b == 'T', c == 'T', d == 'T', e == 'T'⟩
+  | [a, b, c, d] => some ⟨a == 'T', b == 'T', c == 'T', d == 'T', false⟩
   | _ => none
 
 def showTrace (t : Tr Rat) : List SExp :=
